@@ -192,9 +192,9 @@ enum PnSeq {
 #[derive(Clone, Debug)]
 enum PoPhase {
     /// parts still being delivered; `unit_at`: when the first value byte of a two-byte unit was fed
-    In { next: u8, unit_at: Option<Duration> },
+    In { next: u8, unit_at: Option<Span> },
     /// a 7-bit data entry was fed completely at `since`; waiting for late poll / next contributing
-    Waiting { since: Duration },
+    Waiting { since: Span },
 }
 #[derive(Clone, Debug)]
 struct PoTrack {
@@ -238,6 +238,8 @@ pub struct Exec<'a> {
     timeout_class: usize,
     now: Duration,
     now_ns: u128,
+    /// clock span of the main instance's call in the current step (start, after)
+    span: Span,
     main: Scn,
     solo: Vec<Scn>,
     twin: Scn,
@@ -287,6 +289,7 @@ impl<'a> Exec<'a> {
         let calls_before = apimon::calls();
         let allocs_before = apimon::allocs_in_api();
         clk::set_now(Duration::ZERO);
+        clk::set_read_step(dur(trace.read_step_ns));
         let timeout = dur(trace.timeout_ns);
         let mut sink = Sink::new();
         let init = (|| -> Result<(Scn, Vec<Scn>, Scn), Panicked> {
@@ -313,6 +316,7 @@ impl<'a> Exec<'a> {
             timeout_class: timeout_class(timeout),
             now: Duration::ZERO,
             now_ns: 0,
+            span: Span::at(Duration::ZERO),
             main,
             solo,
             twin,
@@ -379,6 +383,7 @@ impl<'a> Exec<'a> {
                         }
                         e.p.steps += 1;
                         let r = e.step(ev);
+                        e.resync_clock();
                         e.sink.evals[R::C18_panic as usize] += 1;
                         if let Err(Panicked(l)) = r {
                             e.sink.check(R::C18_panic, false, || format!("panic in {} while executing event {}: {}", apimon::LABEL_NAMES[l as usize], j, ev.to_json().compact()));
@@ -474,6 +479,23 @@ impl<'a> Exec<'a> {
         let ok = a == is_cc14_cn(n) && b == if n < 32 { Some(n + 32) } else { None } && c == is_pn_cn(n);
         self.sink.check(R::C16_predicate, ok, || format!("controller {}: can_be_part_of_14_bit={} corresponding_lsb={:?} is_parameter_number={}", n, a, b, c));
         Ok(())
+    }
+
+    /// Time may have passed inside the calls of this step (clock read step): adopt the hook clock.
+    fn resync_clock(&mut self) {
+        let t = clk::now();
+        if t != self.now {
+            self.p.calls_during_which_time_passed += 1;
+            self.now = t;
+            self.now_ns = t.as_nanos().min(DUR_MAX_NS);
+        }
+    }
+
+    /// Puts the hook clock back to the start of the current step, so that a shadow instance sees
+    /// exactly the clock readings the main instance saw.
+    #[inline]
+    fn rewind(&self) {
+        clk::set_now(self.span.a);
     }
 
     fn group(&self, g: u32) -> Option<&Group> {
@@ -905,7 +927,10 @@ impl<'a> Exec<'a> {
         let chn = api(L::newtype_conversions, || Channel::new(c))?;
         let m = &mut self.main;
         let before = api(L::scanner_copy, || m.po)?;
+        let t0 = self.now;
+        clk::set_now(t0);
         let r = api(L::polling_poll, || m.po.poll(chn))?;
+        self.span = Span { a: t0, b: clk::now() };
         let unchanged = api(L::scanner_eq, || before == m.po)?;
         let img = match r.as_ref() {
             Some(x) => Some(api(L::pn_accessors, || pn_img(x))?),
@@ -920,7 +945,10 @@ impl<'a> Exec<'a> {
                 self.p.telemetry_mismatch += 1;
             }
         }
-        let info = self.obs.on_poll(c, img, self.now, unchanged, &mut self.sink);
+        let info = self.obs.on_poll(c, img, self.span, unchanged, &mut self.sink);
+        if info.straddle {
+            self.p.polls_straddling_deadline += 1;
+        }
         if info.what < 2 {
             self.w_c13 = true;
         }
@@ -936,11 +964,13 @@ impl<'a> Exec<'a> {
             self.sink.check(R::C15_label, i.ch == c, || format!("poll({}) returned a message labelled channel {}", c, i.ch));
         }
         // C15: solo instance of that channel
+        self.rewind();
         let s = &mut self.solo[c as usize];
         let rs = api(L::polling_poll, || s.po.poll(chn))?;
         let eq = api(L::msg_eq, || rs == r)?;
         self.sink.check(R::C15_solo_poll, eq, || format!("poll({}): main returned {:?}, solo scanner of that channel {:?}", c, r, rs));
         // C16: filtered twin
+        self.rewind();
         let t = &mut self.twin;
         let rt = api(L::polling_poll, || t.po.poll(chn))?;
         let eq = api(L::msg_eq, || rt == r)?;
@@ -948,6 +978,7 @@ impl<'a> Exec<'a> {
         // C17: fresh twin
         if let Some(f) = self.fresh.as_mut() {
             self.p.fresh_twin_steps += 1;
+            clk::set_now(self.span.a);
             let rf = api(L::polling_poll, || f.po.poll(chn))?;
             let eq = api(L::msg_eq, || rf == r)?;
             self.sink.check(R::C17_fresh, eq, || format!("poll({}): reset scanner returned {:?}, scanner created with new() at the reset {:?}", c, r, rf));
@@ -956,6 +987,7 @@ impl<'a> Exec<'a> {
             }
         }
         for i in 0..self.forks.len() {
+            clk::set_now(self.span.a);
             let f = &mut self.forks[i];
             let rf = api(L::polling_poll, || f.copy.po.poll(chn))?;
             let eq = api(L::msg_eq, || rf == r)?;
@@ -965,14 +997,15 @@ impl<'a> Exec<'a> {
         if self.restored {
             self.w_c17 = true;
         }
+        clk::set_now(self.span.b);
         // C12 round-trip tracker
-        let now = self.now;
+        let now = self.span;
         let timeout = self.timeout;
         let mut judge: Option<(u32, Vec<Pn>)> = None;
         if let Some(t) = self.po_track[c as usize].as_mut() {
             match t.phase {
                 PoPhase::In { unit_at, .. } => {
-                    if matches!(unit_at, Some(u) if now.saturating_sub(u) >= timeout) {
+                    if matches!(unit_at, Some(u) if maybe_late(u, now, timeout)) {
                         self.po_track[c as usize] = None;
                         self.p.rt_c12_abandoned += 1;
                     } else if let Some(i) = img {
@@ -983,7 +1016,9 @@ impl<'a> Exec<'a> {
                     if let Some(i) = img {
                         t.got.push(i);
                     }
-                    if now.saturating_sub(since) >= timeout {
+                    // judged once the deadline has certainly passed - or, when it fell inside this
+                    // very call, as soon as the scanner has answered
+                    if surely_late(since, now, timeout) || (maybe_late(since, now, timeout) && img.is_some()) {
                         judge = Some((t.g, std::mem::take(&mut t.got)));
                         self.po_track[c as usize] = None;
                     }
@@ -1093,7 +1128,10 @@ impl<'a> Exec<'a> {
 
         // ---- the real thing
         let before = api(L::scanner_copy, || self.main)?;
+        let t0 = self.now;
+        clk::set_now(t0);
         let (r_cc, r_pn, r_po) = feed_scn(&mut self.main, &raw, b, repr)?;
+        self.span = Span { a: t0, b: clk::now() };
         let i_cc = match r_cc.as_ref() {
             Some(x) => Some(api(L::cc14_accessors, || c14_img(x))?),
             None => None,
@@ -1169,7 +1207,7 @@ impl<'a> Exec<'a> {
         }
         // ---- C12/C13/C14 observer
         if let (true, Some((c, n, v))) = (contrib_pn, ccv) {
-            let class_before = self.obs.on_feed(c, n, v, i_po, self.now, &mut self.sink);
+            let class_before = self.obs.on_feed(c, n, v, i_po, self.span, &mut self.sink);
             if class_before != 0 && (i_po[0].is_some() || self.obs.ch[c as usize].st.class() != 0) {
                 self.w_c12 = true;
             }
@@ -1181,6 +1219,7 @@ impl<'a> Exec<'a> {
             for x in [i_cc.map(|x| x.ch), i_pn.map(|x| x.ch), i_po[0].map(|x| x.ch), i_po[1].map(|x| x.ch)].iter().flatten() {
                 self.sink.check(R::C15_label, *x == chan, || format!("feed on channel {} returned a message labelled channel {}", chan, x));
             }
+            self.rewind();
             let s = &mut self.solo[chan as usize];
             let (s_cc, s_pn, s_po) = feed_scn(s, &raw, b, solo_repr)?;
             let (a, bb, c) = api(L::msg_eq, || (s_cc == r_cc, s_pn == r_pn, s_po == r_po))?;
@@ -1209,6 +1248,7 @@ impl<'a> Exec<'a> {
             self.sink.check(R::C16_state, same, || format!("cc14 scanner state changed by non-contributing {:02x?}", b));
         }
         if contrib_pn {
+            self.rewind();
             let t = &mut self.twin;
             let rt1 = api(L::pn_feed, || with_repr!(raw, b, twin_repr, |m| t.pn.feed(m)))?;
             let rt2 = api(L::polling_feed, || with_repr!(raw, b, twin_repr, |m| t.po.feed(m)))?;
@@ -1224,6 +1264,7 @@ impl<'a> Exec<'a> {
         // ---- C17: fresh twin and lockstep copies
         if let Some(f) = self.fresh.as_mut() {
             self.p.fresh_twin_steps += 1;
+            clk::set_now(self.span.a);
             let (f_cc, f_pn, f_po) = feed_scn(f, &raw, b, (repr + 3) % N_REPR)?;
             let eq = api(L::msg_eq, || f_cc == r_cc && f_pn == r_pn && f_po == r_po)?;
             self.sink.check(R::C17_fresh, eq, || format!("fed {:02x?}: reset scanner returned {:?} / {:?} / {:?}, scanner created with new() at the reset {:?} / {:?} / {:?}", b, r_cc, r_pn, r_po, f_cc, f_pn, f_po));
@@ -1232,6 +1273,7 @@ impl<'a> Exec<'a> {
             }
         }
         for i in 0..self.forks.len() {
+            clk::set_now(self.span.a);
             let f = &mut self.forks[i];
             let (f_cc, f_pn, f_po) = feed_scn(&mut f.copy, &raw, b, repr)?;
             let eq = api(L::msg_eq, || f_cc == r_cc && f_pn == r_pn && f_po == r_po)?;
@@ -1242,6 +1284,7 @@ impl<'a> Exec<'a> {
         if self.restored {
             self.w_c17 = true;
         }
+        clk::set_now(self.span.b);
         // ---- round-trip trackers
         self.track_c07(part, &r_cc)?;
         self.track_c10(part, &r_pn)?;
@@ -1454,7 +1497,7 @@ impl<'a> Exec<'a> {
     }
 
     fn track_c12_feed(&mut self, c: u8, cn: u8, part: Option<(u32, u8)>, out: Out2) -> Result<(), Panicked> {
-        let now = self.now;
+        let now = self.span;
         // which group part is this, if any?
         let mut gp: Option<(u32, u8, u8, u8)> = None; // g, i, n, kind
         if let Some((g, i)) = part {
